@@ -419,6 +419,9 @@ func (t *streamableHTTPClientTransport) handleSSEResponse(
 	reqID interface{},
 	options *streamOptions,
 ) (*json.RawMessage, error) {
+	// The body is ours: release the connection however the call ends.
+	defer httpResp.Body.Close()
+
 	reader := bufio.NewReader(httpResp.Body)
 	var rawResult *json.RawMessage
 	var resultReceived bool
